@@ -38,7 +38,7 @@ claim("C11", "M+K", "SMT bounded model checking of MIR (z3); Kani/CBMC harnesses
       "Kernel level: anti-reorg confirmation thresholds of both on-chain event queues (no irreversible conclusion before ANTI_REORG_DELAY confirmations nor before a CSV output matures), heights 1..2^31, all CSV delays; BlockLocator ring operations (Kani) where registered. Equivalence of block-delivery styles is history-quantified and outside the claim.",
       "trusted: rustc MIR dump, engine_m, z3, Kani/CBMC")
 claim("C17", "M", "SMT bounded model checking of MIR (z3 + cvc5 portfolio)",
-      "Kernel level (narrow): the channel_update acceptance closures of NetworkGraph::update_channel_internal - strictly newer timestamp per direction, htlc_maximum <= known capacity - for all timestamps/flags/amounts, and node_announcement ordering (applied iff the node is known and the timestamp is strictly newer, signed and unsigned path alike); counterexamples are replayed through the public NetworkGraph API. Signatures, channel announcements, pruning and order-independence over message sets are outside the claim.",
+      "Kernel level (narrow): the channel_update acceptance closures of NetworkGraph::update_channel_internal - strictly newer timestamp per direction, htlc_maximum <= known capacity - for all timestamps/flags/amounts, node_announcement ordering (applied iff the node is known and the timestamp is strictly newer, signed and unsigned path alike) and one step of the stale-channel pruning loop (each direction judged by its own timestamp; removal iff a direction is missing and the announcement is old); counterexamples are replayed through the public NetworkGraph API. Signatures, channel announcements and order-independence over message sets are outside the claim.",
       "trusted: rustc MIR dump, engine_m, z3")
 claim("C06", "M", "SMT bounded model checking of MIR (z3 + cvc5 portfolio)",
       "Kernel level (narrow): the fee and scheduling kernels that justice claims run on - first-attempt fee, RBF bumping (monotone, BIP-125 rules 3/4), package output value, merge, re-bump timer tied to the counterparty CSV height -, completeness of the retained revocation secrets (protocol-order prefix of the top m indices, SHA-256 uninterpreted), the amount claimed from a revoked HTLC output (amount_msat/1000 exactly) and the classification of revoked outputs as malleable packages. Detection of revoked commitments, secret derivation, package construction and witness validity are outside the claim.",
@@ -59,9 +59,9 @@ claim("C13", "M+K", "Kani/CBMC bounded model checking of the compiled codecs; SM
 claim("C14", "K", K,
       "Kernel level (narrow): AttributionData layout - shift_right/shift_left inverse on the retained bytes, hold-time and HMAC slot movement - for fully symbolic 920-byte contents. Onion construction/peeling and all cryptography are outside the claim.",
       "trusted: Kani/CBMC")
-claim("C18", "K", K,
-      "Kernel level (narrow): BOLT-11 integer <-> 5-bit group codec (mutually inverse, canonical, size function), amount x SI-prefix arithmetic never wraps, PositiveTimestamp bounds; for all u64. Bech32 checksum, signatures, tagged fields and BOLT-12 are outside the claim.",
-      "trusted: Kani/CBMC")
+claim("C18", "M+K", "Kani/CBMC bounded model checking of the BOLT-11 codecs; SMT bounded model checking of MIR (z3 + cvc5) for the BOLT-12 signing-key rule",
+      "Kernel level (narrow): BOLT-11 integer <-> 5-bit group codec (mutually inverse, canonical, size function), amount x SI-prefix arithmetic never wraps, PositiveTimestamp bounds; for all u64 (Kani). BOLT-12 check_invoice_signing_pubkey: Ok iff the signing key is the offer's issuer id, or - without an issuer id - the final blinded node id of one of its paths; public keys as abstract identities, <= 2 paths of <= 2 hops (engine M). Bech32 checksum, signatures, tagged fields, merkle hashing and metadata verification are outside the claim.",
+      "trusted: Kani/CBMC; rustc MIR dump, engine_m, z3/cvc5")
 
 
 def main():
